@@ -44,6 +44,19 @@ def lake_build(targets, timeout=3600):
         return p.returncode == 0, p.stdout, time.time() - t0
 
 
+def leanchecker(module, timeout=1800):
+    """Independent re-check of the compiled .olean of a proofs module (Lean's own `leanchecker`: replays every
+    declaration through the kernel). Returns (ok, output)."""
+    import shutil
+
+    if shutil.which("leanchecker") is None:
+        return True, "leanchecker not installed"
+    with Locked():
+        p = subprocess.run(["lake", "env", "leanchecker", module], cwd=LEAN_DIR, stdout=subprocess.PIPE,
+                           stderr=subprocess.STDOUT, text=True, timeout=timeout)
+    return p.returncode == 0, p.stdout[-2000:]
+
+
 def run_driver(lines, timeout=1800):
     """Send JSON-serialisable cases, one per line, to the compiled driver."""
     if not os.path.exists(DRIVER):
